@@ -371,8 +371,124 @@ def radec_work(P, item):
     explore(run, bound=3, on_path=on_path, stats=P.stats, deadline_s=300)
 
 
+# ---------------------------------------------------------------- field mapping Header <-> SIGPROC dictionary
+def mapping_work(P, item):
+    """Header.to_sigproc followed by Header.from_sigproc (real bytecode; astropy objects and the file codec are
+    stand-ins): every physical field lands in its SIGPROC key and comes back in its Header field - numeric fields as
+    symbolic values, telescope/backend names through every entry of the id tables, unknown ids as Fake/FAKE."""
+    from sigpyproc import header, params
+    from sigpyproc.io import sigproc
+    import attrs
+    H_ = header.Header
+    NUM_I = ("nchans", "nbits", "nifs", "ibeam", "nbeams", "nsamples")
+    NUM_R = ("foff", "fch1", "tsamp", "tstart")
+
+    def run(ctx):
+        vals = {k: SInt(z3.Int(k)) for k in NUM_I}
+        vals.update({k: SReal(z3.Real(k)) for k in NUM_R})
+        dm, az, za = SReal(z3.Real("dm")), SReal(z3.Real("az")), SReal(z3.Real("za"))
+        tel, be, frame, dtype = item[1], item[2], item[3], item[4]
+
+        class Ang:
+            def __init__(self, d):
+                self.deg = d
+
+        class HS:
+            source, rawdatafile, signed = "J0534+2200", "raw.dat", True
+            ra, dec = "05:34:31.9400", "-00:30:00.5000"
+            zenith, azimuth = Ang(za), Ang(az)
+            telescope, backend = tel, be
+            telescope_id = property(H_.telescope_id.fget)
+            machine_id = property(H_.machine_id.fget)
+
+            def to_dict(self):
+                d = dict(vals)
+                d.update(filename="x.fil", data_type=dtype, telescope=tel, backend=be, source=self.source, frame=frame, dm=dm, signed=self.signed,
+                         rawdatafile=self.rawdatafile, telescope_id=self.telescope_id, machine_id=self.machine_id, coord="COORD", azimuth=self.azimuth,
+                         zenith=self.zenith, bandwidth="x", ftop="x", period=0, accel=0)
+                return d
+        hs = HS()
+        hs.frame, hs.dm = frame, dm
+        sig = rebind(H_.to_sigproc)(hs)
+        got = {}
+
+        class SP:
+            telescope_ids, machine_ids = sigproc.telescope_ids, sigproc.machine_ids
+
+            @staticmethod
+            def parse_radec(a, b):
+                return ("COORD", a, b)
+
+            @staticmethod
+            def parse_header_multi(fn, check_contiguity=True):
+                d = dict(sig)
+                d.update(filename=fn, hdrlens=[1], datalens=[1], nsamples_files=[1], tstart_files=[0], filenames=[fn], nsamples=vals["nsamples"])
+                return d
+
+        class AttrsStub:
+            @staticmethod
+            def fields_dict(cls):
+                return attrs.fields_dict(H_)
+        f = rebind(H_.__dict__["from_sigproc"].__func__, sigproc=SP, attrs=AttrsStub, Angle=lambda x: x, units=type("U", (), {"deg": 1}))
+        back = f(lambda **kw: kw, "x.fil")
+        return dict(sig=sig, back=back, vals=vals, dm=dm, az=az, za=za)
+
+    def on_path(ctx, o):
+        Ctx.cur = ctx
+        P.reached += 1
+        sig, back, vals = o["sig"], o["back"], o["vals"]
+        tel, be, frame, dtype = item[1], item[2], item[3], item[4]
+        viol = []
+        viol.append(("to_sigproc emits only recognised keys", z3.BoolVal(any(k not in sigproc.header_keys for k in sig))))
+        need = ("telescope_id", "machine_id", "data_type", "source_name", "barycentric", "pulsarcentric", "az_start", "za_start", "src_raj", "src_dej", "tstart", "tsamp",
+                "nbits", "fch1", "foff", "nchans", "nifs", "refdm", "ibeam", "nbeams")
+        viol.append(("to_sigproc emits every physical key", z3.BoolVal(any(k not in sig for k in need))))
+
+        def ne(a, b):
+            try:
+                return term(a) != term(b)
+            except Exception:  # noqa: BLE001
+                return z3.BoolVal(a != b)
+        if all(k in sig for k in need):
+            for k in ("nchans", "nbits", "nifs", "ibeam", "nbeams", "foff", "fch1", "tsamp", "tstart"):
+                viol.append((f"to_sigproc[{k}]", ne(sig[k], vals[k])))
+            viol.append(("to_sigproc[refdm] = dm", ne(sig["refdm"], o["dm"])))
+            viol.append(("to_sigproc[az_start] = azimuth", ne(sig["az_start"], o["az"])))
+            viol.append(("to_sigproc[za_start] = zenith", ne(sig["za_start"], o["za"])))
+            viol.append(("to_sigproc ids / type / names / coordinates", z3.BoolVal(not (
+                sig["telescope_id"] == sigproc.telescope_ids.get(tel, 0) and sig["machine_id"] == sigproc.machine_ids.get(be, 0)
+                and sig["data_type"] == params.data_types.inverse[dtype] and sig["source_name"] == "J0534+2200"
+                and sig["src_raj"] == 53431.94 and sig["src_dej"] == -3000.5 and sig.get("rawdatafile") == "raw.dat"
+                and (sig["pulsarcentric"], sig["barycentric"]) == {"topocentric": (0, 0), "pulsarcentric": (1, 0), "barycentric": (0, 1)}[frame]))))
+        known_t, known_b = tel in sigproc.telescope_ids, be in sigproc.machine_ids
+        for k in ("nchans", "nbits", "nifs", "ibeam", "nbeams", "foff", "fch1", "tsamp", "tstart"):
+            viol.append((f"from_sigproc[{k}]", z3.BoolVal(True) if k not in back else ne(back[k], vals[k])))
+        viol.append(("from_sigproc[dm] = refdm", z3.BoolVal(True) if "dm" not in back else ne(back["dm"], o["dm"])))
+        viol.append(("from_sigproc[azimuth] = az_start", z3.BoolVal(True) if "azimuth" not in back else ne(back["azimuth"], o["az"])))
+        viol.append(("from_sigproc[zenith] = za_start", z3.BoolVal(True) if "zenith" not in back else ne(back["zenith"], o["za"])))
+        viol.append(("from_sigproc names / frame / type / coordinates", z3.BoolVal(not (
+            back.get("telescope") == (tel if known_t else "Fake") and back.get("backend") == (be if known_b else "FAKE") and back.get("source") == "J0534+2200"
+            and back.get("frame") == frame and back.get("data_type") == dtype and back.get("coord") == ("COORD", 53431.94, -3000.5)
+            and back.get("rawdatafile") == "raw.dat" and back.get("signed") is True))))
+        label = f"field mapping[{tel}/{be},{frame},{dtype}]"
+        for n_, c in viol:
+            if ctx.check(c) == z3.unsat:
+                P.obligation(f"{label}/{n_}", "holds")
+            else:
+                params_ = dict(kind="mapping", telescope=tel, backend=be, frame=frame, data_type=dtype)
+                src = ("import sys, json\nfrom symx.concrete import c05\n"
+                       f"sys.exit(c05.main(json.loads({json.dumps(json.dumps(params_))})))\n")
+                P.violation(f"mapping-{tel}-{be}-{frame}-{n_[:30]}".replace(" ", "_").replace("[", "_").replace("]", "_").replace("/", "-").replace("=", ""), f"{label}: {n_}", src, model=params_)
+                break
+        Ctx.cur = None
+    try:
+        explore(run, bound=2, on_path=on_path, stats=P.stats, deadline_s=120)
+    except Inconclusive as e:
+        P.inconclusive_(f"field mapping: {e}")
+
+
 def work(P, item):
-    return {"roundtrip": roundtrip_work, "edit": edit_work, "frame": frame_work, "radec": radec_work}[item[0]](P, item)
+    return {"roundtrip": roundtrip_work, "edit": edit_work, "frame": frame_work, "radec": radec_work, "mapping": mapping_work}[item[0]](P, item)
 
 
 def batch(P, items):
@@ -404,6 +520,14 @@ def run(R):
     items.append(("edit", filek, "nbits", "a-string-for-a-number"))
     items.append(("frame",))
     items.append(("radec",))
+    from sigpyproc import params as _params
+    tels, bes = list(sigproc.telescope_ids), list(sigproc.machine_ids)
+    frames = ("topocentric", "pulsarcentric", "barycentric")
+    for i in range(max(len(tels), len(bes))):
+        items.append(("mapping", tels[i % len(tels)], bes[i % len(bes)], frames[i % 3], ("filterbank", "time series")[i % 2]))
+    items.append(("mapping", "NoSuchDish", "NoSuchBackend", "topocentric", "filterbank"))
+    R.encode(header.Header.to_sigproc, header.Header.telescope_id.fget, header.Header.machine_id.fget)
+    R.bounds["field_mapping"] = "every telescope and machine id of the tables (plus one unknown name each), the three frames, two data types; numeric fields symbolic"
     R.bounds.update(dict(roundtrip=f"headers of 1..{2 if quick else 3} recognised keys in any order ({len([i for i in items if i[0] == 'roundtrip'])} key tuples), numeric values symbolic over their whole range, string values from {STRS}, data length unbounded",
                          edit="file with keys " + str(filek) + "; every recognised key and an unknown key as the edited key; numeric values symbolic, strings shorter/longer/equal",
                          radec="every DDMMSS.S / HHMMSS.S with 0<=DD<=89, 0<=MM<60, 0<=SS<60 (reals), both signs"))
